@@ -123,7 +123,7 @@ pub mod host {
     #[derive(Clone)]
     pub struct Booked(pub BookedVersions);
     impl Booked {
-        pub async fn read<L, E>(&self, _label: L, _extra: E) -> &BookedVersions {
+        pub fn read<L, E>(&self, _label: L, _extra: E) -> &BookedVersions {
             &self.0
         }
     }
@@ -131,7 +131,7 @@ pub mod host {
         pub map: HashMap<ActorId, Booked>,
     }
     impl Bookie {
-        pub async fn read<L, E>(&self, _label: L, _extra: E) -> &HashMap<ActorId, Booked> {
+        pub fn read<L, E>(&self, _label: L, _extra: E) -> &HashMap<ActorId, Booked> {
             &self.map
         }
     }
@@ -158,6 +158,7 @@ pub mod host {
     include!("sliced/broadcast.rs");
     include!("sliced/util.rs");
     include!("sliced/handlers.rs");
+    include!("sliced/parts.rs");
 
     macro_rules! step_like_repo {
         ($t:ident) => {
